@@ -1,10 +1,12 @@
 #!/bin/bash
-# run_mutant.sh <patch> <check-id...>: apply the change to /repo, run the given checks (quick), undo.
-P=$1; shift
-cd /repo && git diff --quiet || { echo "/repo not clean"; exit 2; }
-git -C /repo apply $P || { echo APPLY-FAILED; exit 2; }
+# run_mutant.sh <worktree> <patch> <check-id...>: apply the change in the scratch worktree, run the
+# given checks (quick) against THAT checkout (VERIF_REPO), undo, and restore the Gen files from /repo.
+# (/repo itself is never touched, so concurrent work reading /repo is not disturbed.)
+WT=$1; P=$2; shift; shift
+git -C $WT checkout -q -- . ; git -C $WT apply $P || { echo APPLY-FAILED; exit 2; }
 for c in "$@"; do
-  out=$(cd /verif && timeout 1800 ./check $c --tier quick 2>&1); rc=$?
-  echo "== $c rc=$rc"; echo "$out" | grep -E "^VIOLATION|^KNOWN|OK:" | head -4; echo "$out" | grep -A1 "^VIOLATION" | grep -v "^VIOLATION\|^--" | head -2 | cut -c1-300
+  out=$(cd /verif && VERIF_REPO=$WT timeout 2400 ./check $c --tier quick 2>&1); rc=$?
+  echo "== $c rc=$rc"; echo "$out" | grep -E "^VIOLATION|^KNOWN|OK:" | head -3; echo "$out" | grep -A1 "^VIOLATION" | grep -v "^VIOLATION\|^--" | head -2 | cut -c1-330
 done
-git -C /repo checkout -- .
+git -C $WT checkout -q -- .
+cd /verif && for t in translators/*2coq.py; do python3 $t /repo coq/Gen >/dev/null; done
